@@ -1259,10 +1259,9 @@ def _lock_nodes : Stmt :=
         check .assert,
         Stmt.ite .any
           (block [
-            Stmt.opaque "expression GeneratorExp",
-            check .assert,
-            -- for each node of self._involved_nodes(target)
+            -- for each node of ds.items()
             block [
+              check .assert,
               release ALL
             ],
             cont
@@ -1319,10 +1318,9 @@ def remote_cnot_onto : Stmt :=
               check .assert,
               Stmt.ite .any
                 (block [
-                  Stmt.opaque "expression GeneratorExp",
-                  check .assert,
-                  -- for each node of self._involved_nodes(target)
+                  -- for each node of ds.items()
                   block [
+                    check .assert,
                     release ALL
                   ],
                   cont
@@ -1482,10 +1480,9 @@ def remote_cphase_onto : Stmt :=
               check .assert,
               Stmt.ite .any
                 (block [
-                  Stmt.opaque "expression GeneratorExp",
-                  check .assert,
-                  -- for each node of self._involved_nodes(target)
+                  -- for each node of ds.items()
                   block [
+                    check .assert,
                     release ALL
                   ],
                   cont
@@ -1643,10 +1640,9 @@ def _two_qubit_gate : Stmt :=
             check .assert,
             Stmt.ite .any
               (block [
-                Stmt.opaque "expression GeneratorExp",
-                check .assert,
-                -- for each node of self._involved_nodes(target)
+                -- for each node of ds.items()
                 block [
+                  check .assert,
                   release ALL
                 ],
                 cont
